@@ -89,7 +89,7 @@ def handle (req : Json) : Except String Json := do
       | none => 0
     pure (obj [("outs", ofList outToJson (runL flDouble val 0 L ops))])
   | "corral_init" =>
-    let c := Corral.init (← nat (← field req "M")) (← ratOfJson (← field req "eta")) (← ratOfJson (← field req "gamma"))
+    let c := Corral.init flDouble (← nat (← field req "M")) (← ratOfJson (← field req "eta")) (← ratOfJson (← field req "gamma"))
       (← ratOfJson (← field req "beta")) (← bool (← field req "imp")) (← parseSeed (← field req "seed"))
     pure (obj [("state", corralToJson c)])
   | "corral" =>
